@@ -492,7 +492,9 @@ pub fn run(id: &str, tier: Tier) -> i32 {
                 .iter()
                 .map(|c| {
                     let (exe, work) = (&exe, &work);
-                    let timeout = Duration::from_secs(if c.hang { 240 } else { 90 });
+                    // termination is decided by C04 only: the other monitors just need to know which
+                    // call the case was in, a short look is enough
+                    let timeout = Duration::from_secs(if id != "C04" { 30 } else if c.hang { 240 } else { 90 });
                     sc.spawn(move || run_solo(exe, id, tier, seed, c.idx, work, timeout))
                 })
                 .collect();
